@@ -177,13 +177,9 @@ class DirectCollocation(SamplingMethod):
         for i in range(self.M):
             subgrid+=list((i+np.array(self.tau))/self.M)
 
-        v_sampled_store = []
-        for e in self.signals.values():
-            v_sampled = ca.horzsplit(e.sample(subgrid=subgrid,include_edges=False))
-            v_sampled_store.append(v_sampled)
-        signals_sampled = []
-        for i in range(len(subgrid*self.N)):
-            signals_sampled.append(ca.vertcat(*[e[i] for e in v_sampled_store]))
+        v_sampled_store = {}
+        for s, e in self.signals.items():
+            v_sampled_store[s] = ca.horzsplit(e.sample(subgrid=subgrid,include_edges=False))
 
         dts = []
         # Fill in Z variables up-front, since they might be needed in constraints with ocp.next
@@ -206,11 +202,11 @@ class DirectCollocation(SamplingMethod):
         for k in range(self.N):
             dt = dts[k]
             self.add_coupling_constraints(stage, opti, k)
-            p = self.get_p_sys(stage,k,include_signals=False)
             for i in range(self.M):
                 for j in range(self.degree):
                     Pidot_j = mtimes(self.Xc[k][i],self.C[:,j])/ dt
-                    p_total = vertcat(p, signals_sampled[count_f_eval])
+                    # the signals sampled at this collocation time go to their own positions in the parameter vector
+                    p_total = self.get_p_sys(stage,k,signal_values={s: v[count_f_eval] for s,v in v_sampled_store.items()})
                     res = f(x=self.Xc[k][i][:, j+1], u=self.U[k], z=self.Zc[k][i][:,j], p=p_total, t=self.tr[k][i][j])
                     count_f_eval += 1
                     # Collocation constraints
